@@ -222,6 +222,15 @@ def run(rep, tier="quick", replay=None, evidence_dir=None, collect_only=False):
         if o["rule"] in ("C03.R4",) or (o["rule"] == "C03.R3" and ("clear" in o["instance"] or "reset" in o["instance"] or "num_values = 0" in o["instance"])):
             n5 += 1
             rep.ob("C13.R5", "[%s] %s" % (o["rule"], o["instance"]), o["ok"], o["detail"], o["loc"])
+    # a reusable message buffer is restored when the sink write fails, too (C18.R3 instances): otherwise the next message
+    # delivered to the sink is not the byte sequence an in-memory buffer would have received
+    import c18
+    sub18 = common.Report("C18", tier, 0)
+    c18.run(sub18, tier=tier, collect_only=True)
+    for o in sub18.obligations:
+        if o["rule"] == "C18.R3":
+            n5 += 1
+            rep.ob("C13.R5", "[%s] %s" % (o["rule"], o["instance"]), o["ok"], o["detail"], o["loc"])
     rep.floor("C13.R5", "imported state-after-write obligations", n5, 3)
 
     # ---------- R6: an error of a sink write ends the operation ----------
